@@ -469,6 +469,14 @@ func genC18(t *rapid.T) any {
 			c.Expr = sq.Call("HASH", b.arg(v, "v"), sq.Str(caseFlip(t, alg+" ", "a")[:len(alg)]))
 		}
 		c.Direct = true
+		if (alg == "md5" || alg == "sha1" || alg == "sha256" || alg == "sha512") && rapid.IntRange(0, 3).Draw(t, "zeros") == 0 {
+			// two values that compare equal but are different values (0 and -0, 1 and "1", 2 and 2.5): each digest in the
+			// query equals the digest of that value hashed in a query of its own (HASH is a function of v alone)
+			pair := rapid.SampledFrom([][2]any{{0.0, math.Copysign(0, -1)}, {math.Copysign(0, -1), 0.0}, {1.0, "1"}, {"1", 1.0}, {true, "true"}, {2.0, 2.5}, {"", nil}}).Draw(t, "zeropair")
+			c.Expr = sq.Call("HASH", b.arg(pair[0], "z0"), sq.Str(alg))
+			c.Other = sq.Call("HASH", b.arg(pair[1], "z1"), sq.Str(alg))
+			c.Direct = false
+		}
 	case "index":
 		var arr any = genC18Array(t, 2, "arr")
 		if rapid.IntRange(0, 7).Draw(t, "nullarr") == 0 {
@@ -839,6 +847,13 @@ func checkC18(c *C18Case) Result {
 }
 
 // c18ConcatNull: some CONCAT call of the expression receives a NULL argument.
+func firstRow(o Out) any {
+	if len(o.Rows) == 0 {
+		return nil
+	}
+	return o.Rows[0]
+}
+
 func c18ConcatNull(c *C18Case) bool {
 	env := &sq.Env{Funcs: c18Funcs(c.Consts, false)}
 	found := false
@@ -961,6 +976,14 @@ func c18Judge(c *C18Case, nilText bool) Result {
 			if d := c18Match(gv, want); d != "" {
 				res.Violation = fmt.Sprintf("%s\n  %s", ctx, d)
 				return res
+			}
+			if c.Other != nil && c.Class == "hash" {
+				alone := Run(map[string]any{"t": []any{val.CopySpare(row)}}, "SELECT "+sq.Render(c.Other, nil)+" AS v FROM t", Opts{}, extra...)
+				res.Execs++
+				if am, _ := firstRow(alone).(map[string]any); !alone.OK() || am == nil || !val.Equal(val.Norm(am["v"]), val.Norm(m["u"])) {
+					res.Violation = fmt.Sprintf("%s\n  second item u = %s, the same call in a query of its own returns %s", ctx, val.JSON(m["u"]), alone.Describe())
+					return res
+				}
 			}
 			if c.Other != nil {
 				if d := c18Match(m["u"], wantOther); d != "" {
